@@ -154,13 +154,14 @@ Ingest(r, latest) ==
 Advance(d) == now' = now + d /\ UNCHANGED << flows, queue, hist >>
 
 \* ResetStatAndThroughputElementsInRecord on key k (done by the application under the lock)
-ResetStats(k) ==
-  /\ k \in Held
-  /\ flows' = [flows EXCEPT ![k] = [@ EXCEPT
+ResetFlow(f) == [f EXCEPT
         !.com = [i \in 1..NStats |-> IF i \in DeltaIdx THEN 0 ELSE @[i]],
         !.frS = [i \in 1..NStats |-> IF i \in DeltaIdx THEN 0 ELSE @[i]],
         !.frD = [i \in 1..NStats |-> IF i \in DeltaIdx THEN 0 ELSE @[i]],
-        !.tp = Zero2, !.tpS = Zero2, !.tpD = Zero2]]
+        !.tp = Zero2, !.tpS = Zero2, !.tpD = Zero2]
+ResetStats(k) ==
+  /\ k \in Held
+  /\ flows' = [flows EXCEPT ![k] = ResetFlow(@)]
   /\ hist' = [hist EXCEPT ![k] = HReset(@)]
   /\ UNCHANGED << now, queue >>
 
@@ -203,6 +204,17 @@ Scan(order, fail, res) ==
   /\ flows' = res.flows
   /\ queue' = res.queue
   /\ hist' = [k \in DOMAIN res.flows |-> hist[k]]
+  /\ UNCHANGED now
+
+\* The usual application callback: export the record, then reset its delta / throughput fields
+\* (ResetStatAndThroughputElementsInRecord under the lock); a failing callback resets nothing.
+ScanAndReset(order, fail, res) ==
+  /\ ValidOrder(order)
+  /\ res = ScanResult(order, fail)
+  /\ LET ok == { res.calls[i] : i \in 1..Len(res.calls) } \ fail IN
+       /\ flows' = [k \in DOMAIN res.flows |-> IF k \in ok THEN ResetFlow(res.flows[k]) ELSE res.flows[k]]
+       /\ hist' = [k \in DOMAIN res.flows |-> IF k \in ok THEN HReset(hist[k]) ELSE hist[k]]
+  /\ queue' = res.queue
   /\ UNCHANGED now
 
 \* queries (no effect)
